@@ -450,7 +450,8 @@ theorem featLive_tail (win : Nat) (skip : Nat → Bool) (s : St) (ptr m : Nat) (
     (by rw [hfb]; exact ho) hw
   have hR : R = (if nb ≤ win then ⟨liveIn win skip s ptr m b e, m, 0⟩
       else ⟨computeFeats win (nb - win) o (liveIn win skip s ptr m b e), m, nb - win⟩ : LiveRes) := by
-    simp only [R, featLive, hspecial, hclamp, hnb3, if_false, Bool.false_eq_true]
+    have hcl : decide (liveNbuf win s m b e + m > livebuf) = false := by simp only [hclamp, decide_false]
+    simp only [R, featLive, hspecial, hcl, hnb3, if_false, Bool.false_eq_true]
   rw [← hR] at t1 t2 t3
   refine ⟨⟨t1, t2, ?_, ?_, ?_, ?_, ?_, ?_, ?_, ?_⟩, ?_, ?_, ?_, ?_⟩
   · refine ⟨cb, bp, (V + (nb - win) + win) % livebuf, fb, mb, cf, cm, ?_⟩
